@@ -101,7 +101,11 @@ func foreignLossless(loops [][]s2.Point, originInside []bool, depth []int32, has
 		}
 		w(originInside[i])
 		w(depth[i])
-		rect(s2.LoopFromPoints(append([]s2.Point(nil), l...)).RectBound())
+		if len(l) == 0 {
+			rect(s2.EmptyRect())
+		} else {
+			rect(s2.LoopFromPoints(append([]s2.Point(nil), l...)).RectBound())
+		}
 	}
 	rect(bound)
 	return b.Bytes()
@@ -133,7 +137,14 @@ func validEncoding(r *rand.Rand, kind string) []byte {
 	}
 	if kind == "PolygonLossless" && r.Intn(5) == 0 {
 		full, empty := s2.Point{Vector: r3.Vector{Z: -1}}, s2.Point{Vector: r3.Vector{Z: 1}}
-		switch r.Intn(4) {
+		switch r.Intn(6) {
+		case 4, 5: // a loop that declares zero vertices next to an ordinary one (Loop.decode allows it)
+			sp := gen.StarLoop(r, gen.RandCenter(r), 3+r.Intn(6), 0.1, 0.2)
+			ls, oi, dp := [][]s2.Point{{}, sp.Vs}, []bool{r.Intn(2) == 0, s2.LoopFromPoints(sp.Vs).ContainsOrigin()}, []int32{0, 0}
+			if r.Intn(2) == 0 {
+				ls, oi, dp = [][]s2.Point{sp.Vs, {}}, []bool{oi[1], oi[0]}, []int32{0, int32(r.Intn(2))}
+			}
+			return foreignLossless(ls, oi, dp, false, s2.LoopFromPoints(sp.Vs).RectBound())
 		case 0:
 			return foreignLossless([][]s2.Point{{full}}, []bool{true}, []int32{0}, false, s2.FullRect())
 		case 1:
@@ -595,6 +606,19 @@ func decode(kind string, in []byte, r *rand.Rand, primer []byte, differs func(wh
 		_ = v.CapBound()
 		for _, p := range probes(r) {
 			_ = v.ContainsPoint(p)
+		}
+		// probes inside the decoded polygon's own bound: a vertex and the vertex centroid of some loops
+		for k := 0; k < v.NumLoops() && k < 8; k++ {
+			if lp := v.Loop(k); lp.NumVertices() > 0 {
+				sum := lp.Vertex(0).Vector
+				for j := 1; j < lp.NumVertices() && j < 50; j++ {
+					sum = sum.Add(lp.Vertex(j).Vector)
+				}
+				_ = v.ContainsPoint(lp.Vertex(0))
+				if sum.Norm2() > 0 {
+					_ = v.ContainsPoint(s2.Point{Vector: sum.Normalize()})
+				}
+			}
 		}
 		_ = v.IntersectsCell(cellProbe)
 		_ = v.ContainsCell(cellProbe)
